@@ -461,6 +461,40 @@ func c17(c *Ctx) {
 					}
 				}
 			}
+			// every neighbour is traced: the only skip is "already in the tree", no early success
+			rc := calls(trc, "(*"+xp+pkgDag+"."+typ+").traceNode")
+			if len(rc) == 1 && cfgx.LoopOf(rc[0].Block()) != nil {
+				l := cfgx.LoopOf(rc[0].Block())
+				var inTree []cfgx.Edge
+				for _, b := range trc.Blocks {
+					for _, in := range b.Instrs {
+						if lk, ok := in.(*ssa.Lookup); ok && lk.CommaOk && lk.X == ssa.Value(trc.Params[2]) {
+							if okv := extractOf(lk, 1); okv != nil {
+								t, _ := cfgx.CondEdges(okv)
+								inTree = append(inTree, t...)
+							}
+						}
+					}
+				}
+				by, w := cfgx.LoopBypass(l, map[*ssa.BasicBlock]bool{rc[0].Block(): true}, inTree, c.posf())
+				early := false
+				for _, r := range cfgx.ReturnsFromLoop(l) {
+					if nonNilError(r) == "nil" {
+						early = true
+					}
+				}
+				c.R.Check(!by && !early && len(inTree) > 0, load.FuncName(trc)+": traces every neighbour", c.pos(rc[0].Pos()), "every neighbour not yet in the tree is traced; no early success", "tracing can stop (or skip a neighbour) before every neighbour was followed: a missing transitive dependency goes unnoticed", w...)
+				ev := cfgx.ErrEvents(rc[0])
+				good2 := len(ev.Fail) > 0
+				for _, r := range cfgx.ReturnsReachable(ev.Fail, append(ev.OK, cfgx.BackEdges(trc)...)) {
+					if nonNilError(r) == "nil" {
+						good2 = false
+					}
+				}
+				c.R.Check(good2, site(rc[0])+" propagates", c.pos(rc[0].Pos()), "an error from a deeper trace is returned", "an error found deeper in the trace is swallowed")
+			} else {
+				c.R.Unknown(load.FuncName(trc)+": recursion", c.pos(trc.Pos()), "expected one recursive traceNode call inside the neighbours loop")
+			}
 			c.R.Check(good, load.FuncName(trc)+": missing node is an error", c.pos(trc.Pos()), "tracing through a node that is not in the graph fails", "a missing node is silently ignored when tracing transitive dependencies")
 		}
 	}
